@@ -1,5 +1,5 @@
 SPECIFICATION Spec
-CONSTANT LineMax = 5
+CONSTANT LineMax = 6
 CONSTANT MaxTrans = 2
 CONSTANT OffList <- QuickOffs
 INVARIANT OffsetRule
